@@ -173,6 +173,17 @@ def run_impl(case):
             if not same(one, pwf[:, i]):
                 prob.append(("elementwise", f"pointwise_cm: slice for threshold element {i} differs from the scalar-threshold call"))
                 break
+    # the same threshold container passed again after being changed in place: the answer follows the contents
+    if T.size:
+        T2 = np.array(T, dtype=float, copy=True)
+        for name in ("tpr", "fpr"):
+            first = np.array(getattr(s, name)(T2), copy=True)
+            T2 += 0.75
+            if not same(getattr(s, name)(T2), getattr(s, name)(T2.copy())):
+                prob.append(("repeat", f"{name}(T) after T was changed in place differs from {name} of a fresh array with the same contents"))
+            T2 -= 0.75
+            if not same(getattr(s, name)(T2), first):
+                prob.append(("repeat", f"{name}(T) differs from its first answer after T was changed in place and changed back"))
     # threshold_at_metric: one entry per target, each equal to the scalar call on that target (attainable or not)
     if R.size >= 2 and len(pos_in) + len(neg_in) >= 2:
         tl = [float(x) for x in R.reshape(-1)][:6]
@@ -221,6 +232,13 @@ def run_impl(case):
                 prob.append(("derived", f"swap().{m} differs from {SW[m]} of the original"))
         g = build()
         names_ = sorted(set(pg.tolist()) | set(ng.tolist()))
+        if len(names_) >= 2:
+            g5 = build()
+            _ = g5[names_[-1]].pos          # the last group indexed first: group-wise results still come in `groups` order
+            for m in GM:
+                if not same(getattr(g5, m)(T), ref[m]):
+                    prob.append(("derived", f"{m} after indexing group {names_[-1]!r} first differs from the same query on a freshly built object"))
+                    break
         v1 = {n_: (g[n_].pos.copy(), g[n_].neg.copy()) for n_ in names_}
         _ = g.swap()[names_[0]].pos
         for n_ in names_:
